@@ -51,50 +51,22 @@ theorem exact_staged_union {w : World} {s : Status} (h : ExactStatus w s) (p : P
   simp only [List.mem_append, ha, hd, hm]
   cases hh : w.head.get p <;> cases hi : w.index.get p <;> simp
 
-/-- The full statement of the property's second sentence on the model: whatever the working
-directory, index and HEAD look like (so: after any sequence of edits), status succeeds and is exact,
-assuming only the racy-git hypothesis.  It is FALSE for the code as it is (see the counterexamples
-below); the proved theorem is `status_exact_partial`. -/
+/-- The property's second sentence on the model: whatever the working directory, index and HEAD look
+like (so: after any sequence of edits), status succeeds and is exact, assuming only the racy-git
+hypothesis `StatHonest`. -/
 def StatusExactStatement : Prop :=
-  ∀ w : World, StatHonest w → ∃ s, status w = .ok s ∧ ExactStatus w s
+  ∀ w : World, StatHonest w → ∃ s, status cur w = .ok s ∧ ExactStatus w s
 
-/-- Status is exact in every world (hence after ANY sequence of edits of the working directory and
-the index) that satisfies the racy-git hypothesis `StatHonest` and the four hypotheses the code as
-it is forces: no tracked path below a file, changed paths decodable, no kind-only change, link
-lookups harmless. -/
-theorem status_exact_partial (w : World)
-    (hdir : NoTrackedBelowFile w) (hutf : TrackedUtf8 w)
-    (hstat : StatHonest w) (hkind : KindFollowsContent w) (hlink : LinkLookupHarmless w) :
-    ∃ s, status w = .ok s ∧ ExactStatus w s := by
-  have hcatch : Gen.WorkTree.unstagedCatchesNotDir = false := rfl
-  -- get_unstaged_changes does not raise
-  have hun : unstagedOf w.wd w.index = .ok (w.index.keys.filter (changedAt w.wd w.index)) := by
-    unfold unstagedOf
-    have : w.index.keys.any (lstatRaisesNotDir w.wd) = false := by
-      rw [List.any_eq_false]
-      intro p hp
-      have := (List.all_eq_true.mp hdir) p hp
-      simp only [lstatRaisesNotDir, hcatch]
-      simpa using this
-    simp [this]
-  -- every listed staged / unstaged path is a key of HEAD or of the index, hence UTF-8
-  have hall : (stagedAdd w.head w.index ++ stagedDel w.head w.index ++ stagedMod w.head w.index ++
-      w.index.keys.filter (changedAt w.wd w.index)).all validUtf8 = true := by
-    rw [List.all_eq_true]
-    intro p hp
-    have hk : p ∈ w.head.keys ++ w.index.keys := by
-      simp only [List.mem_append, stagedAdd, stagedDel, stagedMod, List.mem_filter] at hp ⊢
-      rcases hp with ((h | h) | h) | h
-      · exact Or.inr h.1
-      · exact Or.inl h.1
-      · exact Or.inl h.1
-      · exact Or.inr h.1
-    exact (List.all_eq_true.mp hutf) p hk
+/-- `status_exact`: the full statement, for the code after the C18 fix series.  (Before it, four more
+hypotheses were needed; see the `legacy_…` regression witnesses below.) -/
+theorem status_exact : StatusExactStatement := by
+  intro w hstat
   refine ⟨⟨stagedAdd w.head w.index, stagedDel w.head w.index, stagedMod w.head w.index,
-    w.index.keys.filter (changedAt w.wd w.index), untrackedOf w.wd w.index⟩, ?_, ?_⟩
+    w.index.keys.filter (changedAt cur w.wd w.index), untrackedOf cur w.wd w.index⟩, ?_, ?_⟩
   · unfold status
-    rw [hun]
-    simp only [hall, if_true]
+    rw [unstagedOf_cur]
+    have : cur.strictDecode = false := rfl
+    simp [this]
   · refine ⟨?_, ?_, ?_, ?_, ?_⟩
     · intro p
       simp only [stagedAdd, List.mem_filter, FMap.mem_keys_iff, FMap.has]
@@ -111,49 +83,39 @@ theorem status_exact_partial (w : World)
       | none => simp
       | some e =>
         have h1 := all_get hstat hi
-        have h2 := all_get hkind hi
-        simp only [hi] at h1 h2
+        simp only [hi] at h1
         have := @entryChanged_iff w.wd p e
           (by intro f hv hm; simp only [hv, hm] at h1; simpa using h1)
-          (by intro f hv hc; simp only [hv, hc] at h2; simpa using h2)
         simp [this]
     · intro p
-      simp only [untrackedOf, untrackedAt, List.mem_filter]
+      simp only [untrackedOf, List.mem_filter, untrackedAt_cur]
       constructor
-      · rintro ⟨hk, hv⟩
+      · rintro ⟨_, hv⟩
         cases hview : lstatView w.wd p with
         | file f =>
-          have hl := (List.all_eq_true.mp hlink) p hk
-          simp only [hview] at hl hv
+          rw [hview] at hv
           refine ⟨⟨f.entry, wdEntry_file hview⟩, ?_⟩
-          have : w.index.has p = false := by
-            rw [hv] at hl; simpa using hl.symm
-          simpa [FMap.has] using this
+          simpa [FMap.has] using hv
         | enoent => simp [hview] at hv
         | enotdir => simp [hview] at hv
         | dir => simp [hview] at hv
       · rintro ⟨⟨e, he⟩, hi⟩
         have hs : (wdEntry w.wd p).isSome = true := by rw [he]; rfl
         obtain ⟨f, hview⟩ := (wdEntry_isSome_iff _ _).mp hs
-        have hk : p ∈ w.wd.keys := FMap.mem_keys_of_get (lstatView_file_get hview)
-        have hl := (List.all_eq_true.mp hlink) p hk
-        simp only [hview] at hl ⊢
-        refine ⟨hk, ?_⟩
-        have : w.index.has p = false := by simp [FMap.has, hi]
-        rw [this] at hl
-        simpa using hl
+        refine ⟨FMap.mem_keys_of_get (lstatView_file_get hview), ?_⟩
+        rw [hview]
+        simp [FMap.has, hi]
 
 /-- The same, phrased over the edit operations of the property's quantifier: start anywhere, apply ANY
 sequence of edits (modify same/different size, chmod, delete, rmtree, create/replace by file, link or
 directory, arbitrary rearrangement, stage, unstage, remove from index, add everything). -/
 theorem status_exact_after_edits (env : Env) (w0 : World) (es : List Edit)
-    (hdir : NoTrackedBelowFile (runEdits env w0 es)) (hutf : TrackedUtf8 (runEdits env w0 es))
-    (hstat : StatHonest (runEdits env w0 es)) (hkind : KindFollowsContent (runEdits env w0 es))
-    (hlink : LinkLookupHarmless (runEdits env w0 es)) :
-    ∃ s, status (runEdits env w0 es) = .ok s ∧ ExactStatus (runEdits env w0 es) s :=
-  status_exact_partial _ hdir hutf hstat hkind hlink
+    (hstat : StatHonest (runEdits cur env w0 es)) :
+    ∃ s, status cur (runEdits cur env w0 es) = .ok s ∧ ExactStatus (runEdits cur env w0 es) s :=
+  status_exact _ hstat
 
-/-! ### a non-trivial instance, and the witnesses that each hypothesis is needed -/
+/-! ### a non-trivial instance, the witness that `StatHonest` is needed, and regression witnesses for
+the behaviour before the fix series (`legacy`) -/
 
 section witnesses
 
@@ -167,25 +129,24 @@ def pde : Path := [100, 47, 101] -- d/e
 def pd : Path := [100]           -- d
 
 /-- HEAD has a, b, c, d/e; the index has a modification of b staged, n added, c removed; in the
-directory a was rewritten (new mtime), d/e is a link leading outside, u is new. -/
+directory a was rewritten (new mtime), d/e is a link leading nowhere, u is new. -/
 def wDemo : World :=
   { head := [(pa, ⟨.regular, 1⟩), (pb, ⟨.regular, 2⟩), (pc, ⟨.executable, 3⟩), (pde, ⟨.symlink, 4⟩)],
     index := [(pa, ⟨.regular, 1, ⟨5, 5, 10⟩⟩), (pb, ⟨.regular, 7, ⟨6, 6, 3⟩⟩), (pn, ⟨.executable, 8, ⟨6, 6, 1⟩⟩),
               (pde, ⟨.symlink, 4, ⟨5, 5, 9⟩⟩)],
     wd := [(pa, ⟨.regular, 9, ⟨7, 7, 10⟩, reg⟩), (pb, ⟨.regular, 7, ⟨6, 6, 3⟩, reg⟩), (pn, ⟨.executable, 8, ⟨6, 6, 1⟩, reg⟩),
-           (pde, ⟨.symlink, 4, ⟨5, 5, 9⟩, ⟨.missing, none⟩⟩), (pu, ⟨.regular, 1, ⟨8, 8, 10⟩, reg⟩)] }
+           (pde, ⟨.symlink, 4, ⟨5, 5, 9⟩, ⟨.missing, some pb⟩⟩), (pu, ⟨.regular, 1, ⟨8, 8, 10⟩, reg⟩)] }
 
-example : NoTrackedBelowFile wDemo ∧ TrackedUtf8 wDemo ∧ StatHonest wDemo ∧ KindFollowsContent wDemo ∧
-    LinkLookupHarmless wDemo := by decide
+example : StatHonest wDemo := by decide
 
-example : status wDemo = .ok ⟨[pn], [pc], [pb], [pa], [pu]⟩ := by decide
+example : status cur wDemo = .ok ⟨[pn], [pc], [pb], [pa], [pu]⟩ := by decide
 
 /-- the same state reached by edits from a clean checkout -/
-example : status (runEdits ⟨[], 0⟩
+example : status cur (runEdits cur ⟨[], 0⟩
     { head := wDemo.head,
       index := [(pa, ⟨.regular, 1, ⟨5, 5, 10⟩⟩), (pb, ⟨.regular, 2, ⟨5, 5, 3⟩⟩), (pc, ⟨.executable, 3, ⟨5, 5, 2⟩⟩), (pde, ⟨.symlink, 4, ⟨5, 5, 9⟩⟩)],
       wd := [(pa, ⟨.regular, 1, ⟨5, 5, 10⟩, reg⟩), (pb, ⟨.regular, 2, ⟨5, 5, 3⟩, reg⟩), (pc, ⟨.executable, 3, ⟨5, 5, 2⟩, reg⟩),
-             (pde, ⟨.symlink, 4, ⟨5, 5, 9⟩, ⟨.missing, none⟩⟩)] }
+             (pde, ⟨.symlink, 4, ⟨5, 5, 9⟩, ⟨.missing, some pb⟩⟩)] }
     [.modify pb 7 ⟨6, 6, 3⟩, .stage pb, .create pn ⟨.executable, 8, ⟨6, 6, 1⟩, reg⟩, .stage pn, .rmCached pc, .delete pc,
      .modify pa 9 ⟨7, 7, 10⟩, .create pu ⟨.regular, 1, ⟨8, 8, 10⟩, reg⟩])
     = .ok ⟨[pn], [pc], [pb], [pa], [pu]⟩ := by decide
@@ -195,11 +156,10 @@ def wRacy : World :=
   { head := [(pa, ⟨.regular, 1⟩)], index := [(pa, ⟨.regular, 1, ⟨5, 5, 4⟩⟩)],
     wd := [(pa, ⟨.regular, 2, ⟨5, 5, 4⟩, reg⟩)] }
 
-/-- `StatHonest` is needed: without it (and with every other hypothesis in place) status reports a
-clean tree although the file's content differs from the index. -/
+/-- `StatHonest` is needed: without it status reports a clean tree although the file's content
+differs from the index. -/
 theorem stat_honest_needed_counterexample :
-    ¬ StatHonest wRacy ∧ NoTrackedBelowFile wRacy ∧ TrackedUtf8 wRacy ∧ KindFollowsContent wRacy ∧
-    LinkLookupHarmless wRacy ∧ status wRacy = .ok ⟨[], [], [], [], []⟩ ∧
+    ¬ StatHonest wRacy ∧ status cur wRacy = .ok ⟨[], [], [], [], []⟩ ∧
     wdEntry wRacy.wd pa ≠ (wRacy.index.get pa).map IEntry.entry := by decide
 
 /-- chmod +x on a tracked file (stat key differs: ctime moved). -/
@@ -207,210 +167,123 @@ def wChmod : World :=
   { head := [(pa, ⟨.regular, 1⟩)], index := [(pa, ⟨.regular, 1, ⟨5, 5, 4⟩⟩)],
     wd := [(pa, ⟨.executable, 1, ⟨6, 5, 4⟩, reg⟩)] }
 
-/-- FINDING (mode-only change): all hypotheses but `KindFollowsContent` hold, and status misses it. -/
-theorem status_mode_only_counterexample :
-    StatHonest wChmod ∧ NoTrackedBelowFile wChmod ∧ TrackedUtf8 wChmod ∧ LinkLookupHarmless wChmod ∧
-    status wChmod = .ok ⟨[], [], [], [], []⟩ ∧
-    wdEntry wChmod.wd pa ≠ (wChmod.index.get pa).map IEntry.entry := by decide
-
-/-- The full statement (only `StatHonest` assumed) does not hold for the code as it is. -/
-theorem statusExactStatement_counterexample : ¬ StatusExactStatement := by
-  intro h
-  obtain ⟨s, hs, hex⟩ := h wChmod (by decide)
-  have hc : status wChmod = .ok ⟨[], [], [], [], []⟩ := by decide
-  rw [hc] at hs
-  cases hs
-  have := (hex.2.2.2.1 pa).mpr ⟨⟨.regular, 1, ⟨5, 5, 4⟩⟩, by decide, by decide⟩
-  simp at this
+/-- REGRESSION (fixed: mode-only change): the old code reported nothing, the code now lists `a`. -/
+theorem legacy_mode_only_witness :
+    StatHonest wChmod ∧ status legacy wChmod = .ok ⟨[], [], [], [], []⟩ ∧
+    status cur wChmod = .ok ⟨[], [], [], [pa], []⟩ := by decide
 
 /-- A file replaced by a link whose target bytes are the old content (same blob id). -/
 def wType : World :=
   { head := [(pa, ⟨.regular, 1⟩)], index := [(pa, ⟨.regular, 1, ⟨5, 5, 1⟩⟩)],
     wd := [(pa, ⟨.symlink, 1, ⟨6, 6, 1⟩, ⟨.missing, none⟩⟩)] }
 
-/-- FINDING (type change with the same blob): status reports nothing. -/
-theorem status_type_change_counterexample :
-    StatHonest wType ∧ status wType = .ok ⟨[], [], [], [], []⟩ ∧
-    wdEntry wType.wd pa ≠ (wType.index.get pa).map IEntry.entry := by decide
+/-- REGRESSION (fixed: type change with the same blob). -/
+theorem legacy_type_change_witness :
+    StatHonest wType ∧ status legacy wType = .ok ⟨[], [], [], [], []⟩ ∧
+    status cur wType = .ok ⟨[], [], [], [pa], []⟩ := by decide
 
 /-- A tracked directory `d` (with `d/e`) replaced by a file `d`. -/
 def wDirFile : World :=
   { head := [(pde, ⟨.regular, 1⟩)], index := [(pde, ⟨.regular, 1, ⟨5, 5, 1⟩⟩)],
     wd := [(pd, ⟨.regular, 2, ⟨6, 6, 3⟩, reg⟩)] }
 
-/-- FINDING: status raises `NotADirectoryError` (all other hypotheses hold). -/
-theorem status_notdir_counterexample :
-    StatHonest wDirFile ∧ TrackedUtf8 wDirFile ∧ KindFollowsContent wDirFile ∧ LinkLookupHarmless wDirFile ∧
-    status wDirFile = .error .notADirectory := by decide
+/-- REGRESSION (fixed: `NotADirectoryError`): now `d/e` is unstaged and `d` untracked, as git says. -/
+theorem legacy_notdir_witness :
+    StatHonest wDirFile ∧ status legacy wDirFile = .error .notADirectory ∧
+    status cur wDirFile = .ok ⟨[], [], [], [pde], [pd]⟩ := by decide
 
 /-- A modified tracked file whose name is the single byte 0xff. -/
 def wNonUtf8 : World :=
   { head := [([255], ⟨.regular, 1⟩)], index := [([255], ⟨.regular, 1, ⟨5, 5, 1⟩⟩)],
     wd := [([255], ⟨.regular, 2, ⟨6, 6, 7⟩, reg⟩)] }
 
-/-- FINDING: status raises `UnicodeDecodeError` (all other hypotheses hold). -/
-theorem status_utf8_counterexample :
-    StatHonest wNonUtf8 ∧ NoTrackedBelowFile wNonUtf8 ∧ KindFollowsContent wNonUtf8 ∧ LinkLookupHarmless wNonUtf8 ∧
-    status wNonUtf8 = .error .unicodeDecode := by decide
+/-- REGRESSION (fixed: `UnicodeDecodeError`). -/
+theorem legacy_utf8_witness :
+    StatHonest wNonUtf8 ∧ status legacy wNonUtf8 = .error .unicodeDecode ∧
+    status cur wNonUtf8 = .ok ⟨[], [], [], [[255]], []⟩ := by decide
 
-/-- `l -> a` untracked next to the tracked `a`; `k -> d` untracked, `d` a directory. -/
+/-- `l -> a` untracked next to the tracked `a`; `k -> d` untracked, `d` a directory; the tracked
+link `m -> b` leads nowhere. -/
 def wLinks : World :=
-  { head := [(pa, ⟨.regular, 1⟩), (pde, ⟨.regular, 2⟩)],
-    index := [(pa, ⟨.regular, 1, ⟨5, 5, 1⟩⟩), (pde, ⟨.regular, 2, ⟨5, 5, 1⟩⟩)],
+  { head := [(pa, ⟨.regular, 1⟩), (pde, ⟨.regular, 2⟩), ([109], ⟨.symlink, 5⟩)],
+    index := [(pa, ⟨.regular, 1, ⟨5, 5, 1⟩⟩), (pde, ⟨.regular, 2, ⟨5, 5, 1⟩⟩), ([109], ⟨.symlink, 5, ⟨5, 5, 1⟩⟩)],
     wd := [(pa, ⟨.regular, 1, ⟨5, 5, 1⟩, reg⟩), (pde, ⟨.regular, 2, ⟨5, 5, 1⟩, reg⟩),
+           ([109], ⟨.symlink, 5, ⟨5, 5, 1⟩, ⟨.missing, some pb⟩⟩),
            ([108], ⟨.symlink, 3, ⟨6, 6, 1⟩, ⟨.file, some pa⟩⟩), ([107], ⟨.symlink, 4, ⟨6, 6, 1⟩, ⟨.dir, some pd⟩⟩)] }
 
-/-- FINDING: untracked links that lead to a tracked path or to a directory are not reported. -/
-theorem status_untracked_link_counterexample :
-    StatHonest wLinks ∧ NoTrackedBelowFile wLinks ∧ TrackedUtf8 wLinks ∧ KindFollowsContent wLinks ∧
-    status wLinks = .ok ⟨[], [], [], [], []⟩ ∧
-    wdEntry wLinks.wd [108] = some ⟨.symlink, 3⟩ ∧ wLinks.index.get [108] = none ∧
-    wdEntry wLinks.wd [107] = some ⟨.symlink, 4⟩ ∧ wLinks.index.get [107] = none := by decide
+/-- REGRESSION (fixed: symbolic links in untracked detection): the old code listed the tracked link
+`m` and missed the untracked links `l` and `k`; the code now lists exactly `l` and `k`. -/
+theorem legacy_untracked_link_witness :
+    StatHonest wLinks ∧ status legacy wLinks = .ok ⟨[], [], [], [], [[109]]⟩ ∧
+    status cur wLinks = .ok ⟨[], [], [], [], [[108], [107]]⟩ := by decide
 
 end witnesses
 
 /-! ## 2. checkout: status is clean, and staging everything reproduces the tree -/
 
-/-- Every link of the tree leads to a directory, leads outside the work tree, or resolves to a path
-that is itself in the tree (so that the index lookup by resolved path finds something). -/
-def LinksHarmless (t : FMap Entry) (obs : Obs) : Prop :=
-  t.keys.all (fun p =>
-    match t.get p, obs.get p with
-    | some e, some o =>
-      !(e.kind == .symlink) || o.2.target == .dir ||
-        (match o.2.alias with
-         | none => true
-         | some q => t.has q)
-    | _, _ => true) = true
-
-/-- No link of the tree leads to a directory. -/
-def NoLinkToDir (t : FMap Entry) (obs : Obs) : Prop :=
-  t.keys.all (fun p =>
-    match t.get p, obs.get p with
-    | some e, some o => !(e.kind == .symlink && o.2.target == .dir)
-    | _, _ => true) = true
-
-instance (t : FMap Entry) (obs : Obs) : Decidable (LinksHarmless t obs) := by unfold LinksHarmless; infer_instance
-instance (t : FMap Entry) (obs : Obs) : Decidable (NoLinkToDir t obs) := by unfold NoLinkToDir; infer_instance
-
-/-- Full statement: status is clean right after the checkout of any tree of valid paths. FALSE for the
-code as it is (`clean_after_checkout_counterexample`). -/
+/-- Status is clean right after the checkout of any well-formed tree of valid paths. -/
 def CleanAfterCheckoutStatement : Prop :=
   ∀ (t : FMap Entry) (obs : Obs), t.keys.all validPath = true → t.keys.all obs.has = true → TreeWF t →
-    ∃ w, checkoutFresh t obs = .ok w ∧ status w = .ok ⟨[], [], [], [], []⟩
+    ∃ w, checkoutFresh t obs = .ok w ∧ status cur w = .ok ⟨[], [], [], [], []⟩
 
-/-- Checkout of a well-formed tree of valid paths succeeds and status is clean immediately afterwards,
-provided the tree's links are harmless for the resolved-path lookup. -/
-theorem clean_after_checkout_partial (t : FMap Entry) (obs : Obs)
-    (hvalid : t.keys.all validPath = true) (hobs : t.keys.all obs.has = true) (hwf : TreeWF t)
-    (hlinks : LinksHarmless t obs) :
-    ∃ w, checkoutFresh t obs = .ok w ∧ status w = .ok ⟨[], [], [], [], []⟩ := by
-  refine ⟨checkedOut t obs, by simp [checkoutFresh, hvalid, hobs], ?_⟩
-  obtain ⟨ha, hd, hm, hu⟩ := checkedOut_nothing_changed hobs hwf
-  have hut : untrackedOf (checkedOut t obs).wd (checkedOut t obs).index = [] := by
-    simp only [untrackedOf, List.filter_eq_nil_iff]
-    intro p hp
-    have hp' : p ∈ t.keys := by
-      simp only [checkedOut] at hp; rwa [checkoutFiles_keys t obs hobs] at hp
-    obtain ⟨e, o, he, ho, hv, hg⟩ := checkedOut_view hobs hwf hp'
-    have hl := (List.all_eq_true.mp hlinks) p hp'
-    simp only [he, ho] at hl
-    have hhas : ∀ q, q ∈ t.keys → (checkedOut t obs).index.has q = true := by
-      intro q hq; rw [FMap.has_iff, checkedOut_index_keys t obs hobs]; exact hq
-    have hv' : lstatView (checkedOut t obs).wd p = .file ⟨e.kind, e.cid, o.1, o.2⟩ := hv
-    simp only [untrackedAt, hv', walkedAsFile, aliasOf]
-    cases hk : e.kind <;> simp only [hk] at hl ⊢
-    · simpa using hhas p hp'
-    · simpa using hhas p hp'
-    · cases htg : o.2.target <;> simp only [htg] at hl ⊢ <;> try simp
-      all_goals
-        cases hal : o.2.alias with
-        | none => simpa using hhas p hp'
-        | some q =>
-          simp only [hal] at hl
-          have hq : q ∈ t.keys := by
-            have : t.has q = true := by simpa using hl
-            exact (FMap.has_iff t q).mp this
-          simpa using hhas q hq
-  unfold status
-  have hh : (checkedOut t obs).head = t := rfl
-  rw [hu, hh, ha, hd, hm, hut]
-  rfl
+/-- `clean_after_checkout`: the full statement. -/
+theorem clean_after_checkout : CleanAfterCheckoutStatement := by
+  intro t obs hvalid hobs hwf
+  exact ⟨checkedOut t obs, by simp [checkoutFresh, hvalid, hobs], (checkedOut_synced hobs hwf).status⟩
 
-/-- non-vacuity: a tree with a file, an executable in a directory, and two harmless links -/
+/-- non-vacuity: a tree with a file, an executable in a directory, and links leading to a tracked file,
+nowhere, and to a directory -/
 example : ∃ w, checkoutFresh
-      [(pa, ⟨.regular, 1⟩), (pde, ⟨.executable, 2⟩), ([108], ⟨.symlink, 3⟩), ([107], ⟨.symlink, 4⟩)]
+      [(pa, ⟨.regular, 1⟩), (pde, ⟨.executable, 2⟩), ([108], ⟨.symlink, 3⟩), ([107], ⟨.symlink, 4⟩), ([109], ⟨.symlink, 5⟩)]
       [(pa, (⟨5, 5, 1⟩, reg)), (pde, (⟨5, 5, 2⟩, reg)), ([108], (⟨5, 5, 1⟩, ⟨.file, some pa⟩)),
-       ([107], (⟨5, 5, 9⟩, ⟨.missing, none⟩))] = .ok w ∧ status w = .ok ⟨[], [], [], [], []⟩ :=
-  clean_after_checkout_partial _ _ (by decide) (by decide) (by decide) (by decide)
+       ([107], (⟨5, 5, 9⟩, ⟨.missing, some pb⟩)), ([109], (⟨5, 5, 1⟩, ⟨.dir, some pd⟩))] = .ok w ∧
+      status cur w = .ok ⟨[], [], [], [], []⟩ :=
+  clean_after_checkout _ _ (by decide) (by decide) (by decide)
 
-/-- FINDING: a tracked link whose target does not exist (resolves to the untracked work-tree path
-`b`) is listed as untracked right after checkout. -/
-theorem clean_after_checkout_counterexample : ¬ CleanAfterCheckoutStatement := by
-  intro h
-  obtain ⟨w, hw, hs⟩ := h [(pa, ⟨.symlink, 1⟩)] [(pa, (⟨5, 5, 1⟩, ⟨.missing, some pb⟩))] (by decide) (by decide) (by decide)
-  have h1 : checkoutFresh [(pa, ⟨.symlink, 1⟩)] [(pa, (⟨5, 5, 1⟩, ⟨.missing, some pb⟩))] =
-      .ok (checkedOut [(pa, ⟨.symlink, 1⟩)] [(pa, (⟨5, 5, 1⟩, ⟨.missing, some pb⟩))]) := by decide
-  rw [h1] at hw
-  cases hw
-  revert hs
-  decide
+/-- REGRESSION (fixed): a tracked link whose target does not exist (resolves to the untracked path
+`b`) was listed as untracked right after checkout. -/
+theorem legacy_clean_after_checkout_witness :
+    status legacy (checkedOut [(pa, ⟨.symlink, 1⟩)] [(pa, (⟨5, 5, 1⟩, ⟨.missing, some pb⟩))]) =
+      .ok ⟨[], [], [], [], [pa]⟩ ∧
+    status cur (checkedOut [(pa, ⟨.symlink, 1⟩)] [(pa, (⟨5, 5, 1⟩, ⟨.missing, some pb⟩))]) =
+      .ok ⟨[], [], [], [], []⟩ := by decide
 
 /-- `checkout_stage_roundtrip`: check out any well-formed tree of valid paths, stage everything
 (`porcelain.add()`), and the index's tree is the tree that was checked out. -/
 theorem checkout_stage_roundtrip (t : FMap Entry) (obs : Obs)
     (hvalid : t.keys.all validPath = true) (hobs : t.keys.all obs.has = true) (hwf : TreeWF t) :
-    ∃ w w', checkoutFresh t obs = .ok w ∧ stageAll w = .ok w' ∧
+    ∃ w w', checkoutFresh t obs = .ok w ∧ stageAll cur w = .ok w' ∧
       ∀ p, (treeOf w'.index).get p = t.get p := by
-  refine ⟨checkedOut t obs,
-    (untrackedOf (checkedOut t obs).wd (checkedOut t obs).index ++ []).foldl stage (checkedOut t obs),
-    by simp [checkoutFresh, hvalid, hobs], ?_, ?_⟩
-  · obtain ⟨_, _, _, hu⟩ := checkedOut_nothing_changed hobs hwf
-    unfold stageAll
-    rw [hu]
-    rfl
-  · intro p
-    have hsame : ∀ q ∈ untrackedOf (checkedOut t obs).wd (checkedOut t obs).index,
-        ∃ f, lstatView (checkedOut t obs).wd q = .file f ∧ (checkedOut t obs).index.get q = some f.ientry := by
-      intro q hq
-      simp only [untrackedOf, List.mem_filter] at hq
-      have hq' : q ∈ t.keys := by
-        have := hq.1; simp only [checkedOut] at this; rwa [checkoutFiles_keys t obs hobs] at this
-      obtain ⟨e, o, _, _, hv, hg⟩ := checkedOut_view hobs hwf hq'
-      exact ⟨_, hv, by rw [checkedOut_index_get, hg]; rfl⟩
-    have hidx := foldl_stage_same _ (checkedOut t obs) hsame p
-    simp only [treeOf, List.append_nil]
-    rw [FMap.get_mapVal _ (fun _ (v : IEntry) => v.entry) p, hidx, checkedOut_index_get, checkoutFiles_get t obs hobs]
-    cases ht : t.get p with
-    | none => simp
-    | some e =>
-      have hp : p ∈ t.keys := FMap.mem_keys_of_get ht
-      obtain ⟨o, ho⟩ := Option.isSome_iff_exists.mp ((List.all_eq_true.mp hobs) p hp)
-      simp [ho, WFile.ientry, IEntry.entry]
+  have hsync := checkedOut_synced hobs hwf
+  obtain ⟨_, _, _, hu, hut⟩ := hsync.nothing_changed
+  refine ⟨checkedOut t obs, checkedOut t obs, by simp [checkoutFresh, hvalid, hobs], ?_, hsync.treeOf⟩
+  unfold stageAll
+  rw [hu, hut]
+  rfl
 
 /-- The stronger round trip: throw the index away after the checkout, add everything from scratch, and
-the index's tree is again the tree — provided no link of the tree leads to a directory. -/
-theorem checkout_clear_stage_roundtrip_partial (t : FMap Entry) (obs : Obs)
-    (hvalid : t.keys.all validPath = true) (hobs : t.keys.all obs.has = true) (hwf : TreeWF t)
-    (hnd : NoLinkToDir t obs) :
-    ∃ w w', checkoutFresh t obs = .ok w ∧ stageAll (clearIndex w) = .ok w' ∧
+the index's tree is again the tree. -/
+theorem checkout_clear_stage_roundtrip (t : FMap Entry) (obs : Obs)
+    (hvalid : t.keys.all validPath = true) (hobs : t.keys.all obs.has = true) (hwf : TreeWF t) :
+    ∃ w w', checkoutFresh t obs = .ok w ∧ stageAll cur (clearIndex w) = .ok w' ∧
       ∀ p, (treeOf w'.index).get p = t.get p := by
   refine ⟨checkedOut t obs,
-    (untrackedOf (checkedOut t obs).wd [] ++ []).foldl stage (clearIndex (checkedOut t obs)),
-    by simp [checkoutFresh, hvalid, hobs], rfl, ?_⟩
+    (untrackedOf cur (checkedOut t obs).wd [] ++ []).foldl stage (clearIndex (checkedOut t obs)),
+    by simp [checkoutFresh, hvalid, hobs], ?_, ?_⟩
+  · unfold stageAll
+    rw [unstagedOf_cur]
+    rfl
   · intro p
     have hkeys : (checkedOut t obs).wd.keys = t.keys := by
       simp only [checkedOut]; exact checkoutFiles_keys t obs hobs
-    have hL : untrackedOf (checkedOut t obs).wd [] = t.keys := by
+    have hL : untrackedOf cur (checkedOut t obs).wd [] = t.keys := by
       simp only [untrackedOf, hkeys]
       rw [List.filter_eq_self]
       intro q hq
       obtain ⟨e, o, he, ho, hv, _⟩ := checkedOut_view hobs hwf hq
-      have hn := (List.all_eq_true.mp hnd) q hq
-      simp only [he, ho] at hn
-      simp only [untrackedAt, checkedOut] at hv ⊢
-      rw [hv]
-      simpa [walkedAsFile, FMap.has] using hn
+      have hv' : lstatView (checkedOut t obs).wd q = .file ⟨e.kind, e.cid, o.1, o.2⟩ := hv
+      rw [untrackedAt_cur, hv']
+      simp [FMap.has]
     have hfiles : ∀ q ∈ t.keys, ∃ f, lstatView (clearIndex (checkedOut t obs)).wd q = .file f := by
       intro q hq
       obtain ⟨e, o, _, _, hv, _⟩ := checkedOut_view hobs hwf hq
@@ -430,90 +303,83 @@ theorem checkout_clear_stage_roundtrip_partial (t : FMap Entry) (obs : Obs)
         rw [checkoutFiles_get t obs hobs, ht, ho]; rfl
       simp [hp, clearIndex, checkedOut, hg, WFile.ientry, IEntry.entry]
 
-/-- non-vacuity for both round trips -/
+/-- non-vacuity for both round trips (with a link that leads to a directory) -/
 example : ∃ w w', checkoutFresh
-      [(pa, ⟨.regular, 1⟩), (pde, ⟨.executable, 2⟩), ([108], ⟨.symlink, 3⟩)]
-      [(pa, (⟨5, 5, 1⟩, reg)), (pde, (⟨5, 5, 2⟩, reg)), ([108], (⟨5, 5, 1⟩, ⟨.missing, some pb⟩))] = .ok w ∧
-      stageAll (clearIndex w) = .ok w' ∧
-      ∀ p, (treeOf w'.index).get p = FMap.get [(pa, ⟨.regular, 1⟩), (pde, ⟨.executable, 2⟩), ([108], ⟨.symlink, 3⟩)] p :=
-  checkout_clear_stage_roundtrip_partial _ _ (by decide) (by decide) (by decide) (by decide)
+      [(pa, ⟨.regular, 1⟩), (pde, ⟨.executable, 2⟩), ([107], ⟨.symlink, 3⟩)]
+      [(pa, (⟨5, 5, 1⟩, reg)), (pde, (⟨5, 5, 2⟩, reg)), ([107], (⟨5, 5, 1⟩, ⟨.dir, some pd⟩))] = .ok w ∧
+      stageAll cur (clearIndex w) = .ok w' ∧
+      ∀ p, (treeOf w'.index).get p = FMap.get [(pa, ⟨.regular, 1⟩), (pde, ⟨.executable, 2⟩), ([107], ⟨.symlink, 3⟩)] p :=
+  checkout_clear_stage_roundtrip _ _ (by decide) (by decide) (by decide)
 
-/-- FINDING: a link that leads to a directory is not picked up by "add everything": after checkout,
-dropping the index and adding everything, the link `k -> d` is missing from the index. -/
-theorem checkout_clear_stage_counterexample :
-    ∃ w w', checkoutFresh [(pde, ⟨.regular, 1⟩), ([107], ⟨.symlink, 2⟩)]
-        [(pde, (⟨5, 5, 1⟩, reg)), ([107], (⟨5, 5, 1⟩, ⟨.dir, some pd⟩))] = .ok w ∧
-      stageAll (clearIndex w) = .ok w' ∧ (treeOf w'.index).get [107] = none := by
-  refine ⟨checkedOut [(pde, ⟨.regular, 1⟩), ([107], ⟨.symlink, 2⟩)]
-    [(pde, (⟨5, 5, 1⟩, reg)), ([107], (⟨5, 5, 1⟩, ⟨.dir, some pd⟩))], _, by decide, rfl, by decide⟩
+/-- REGRESSION (fixed): a link that leads to a directory was not picked up by "add everything". -/
+theorem legacy_clear_stage_witness :
+    (stageAll legacy (clearIndex (checkedOut [(pde, ⟨.regular, 1⟩), ([107], ⟨.symlink, 2⟩)]
+        [(pde, (⟨5, 5, 1⟩, reg)), ([107], (⟨5, 5, 1⟩, ⟨.dir, some pd⟩))]))).toOption.map
+      (fun w => (treeOf w.index).get [107]) = some none ∧
+    (stageAll cur (clearIndex (checkedOut [(pde, ⟨.regular, 1⟩), ([107], ⟨.symlink, 2⟩)]
+        [(pde, (⟨5, 5, 1⟩, reg)), ([107], (⟨5, 5, 1⟩, ⟨.dir, some pd⟩))]))).toOption.map
+      (fun w => (treeOf w.index).get [107]) = some (some ⟨.symlink, 2⟩) := by decide
 
 /-! ## 3. branch switch -/
 
-/-- Full statement: from a clean checkout of any tree `a`, `porcelain.checkout` of any tree `b`
-succeeds, the directory and the index then hold exactly `b`, and nothing is staged or unstaged.
-FALSE for the code as it is when a directory of `a` is a file in `b`
-(`branch_switch_dir_to_file_counterexample`). -/
+/-- From a clean checkout of any tree `a`, `porcelain.checkout` of any tree `b` succeeds, HEAD is `b`,
+the directory and the index then hold exactly `b`, and status is clean. -/
 def BranchSwitchStatement : Prop :=
   ∀ (a b : FMap Entry) (obsA obsB : Obs),
     a.keys.all validPath = true → b.keys.all validPath = true →
     a.keys.all obsA.has = true → b.keys.all obsB.has = true → TreeWF a → TreeWF b →
-    ∃ w', switchTo (checkedOut a obsA) b obsB = ⟨w', none⟩ ∧ w'.head = b ∧
-      (∀ p, wdEntry w'.wd p = b.get p) ∧ (∀ p, (treeOf w'.index).get p = b.get p)
-
-/-- `branch_switch`: check out `b` on a clean checkout of `a`, for ALL pairs of well-formed trees of
-valid paths except those in which a directory of `a` is a file in `b` (`NoDirToFile`): every
-combination of added, deleted, modified, re-moded and type-changed (file ↔ executable ↔ symbolic
-link) paths at any depth, and files (or links) of `a` that become directories in `b`.  The switch
-succeeds, HEAD is `b`, the directory holds exactly `b` (kinds and contents), the index's tree is `b`,
-nothing is staged or unstaged, and status is clean whenever the link lookup is harmless. -/
-theorem branch_switch_partial (a b : FMap Entry) (obsA obsB : Obs)
-    (hva : a.keys.all validPath = true) (hvb : b.keys.all validPath = true)
-    (hoa : a.keys.all obsA.has = true) (hob : b.keys.all obsB.has = true)
-    (hwfa : TreeWF a) (hwfb : TreeWF b) (hndf : NoDirToFile a b) :
-    ∃ w', switchTo (checkedOut a obsA) b obsB = ⟨w', none⟩ ∧ w'.head = b ∧
+    ∃ w', switchTo cur (checkedOut a obsA) b obsB = ⟨w', none⟩ ∧ w'.head = b ∧
       (∀ p, wdEntry w'.wd p = b.get p) ∧ (∀ p, (treeOf w'.index).get p = b.get p) ∧
-      status w' = .ok ⟨[], [], [], [], untrackedOf w'.wd w'.index⟩ ∧
-      (LinkLookupHarmless w' → status w' = .ok ⟨[], [], [], [], []⟩) := by
+      status cur w' = .ok ⟨[], [], [], [], []⟩
+
+/-- `branch_switch`: the full statement, for ALL pairs of well-formed trees of valid paths: every
+combination of added, deleted, modified, re-moded and type-changed (file ↔ executable ↔ symbolic
+link) paths at any depth, files that become directories and directories that become files.  All
+deletions are applied first (which empties and so removes the directories that go away), then all
+writes; each path is independent of the others because no path of a tree lies below another. -/
+theorem branch_switch : BranchSwitchStatement := by
+  intro a b obsA obsB hva hvb hoa hob hwfa hwfb
   have hsync := checkedOut_synced hoa hwfa
   have hcu := checkUncommitted_synced hsync b
   have hpd : preCheckDirs (checkedOut a obsA).wd (changes a b) = .ok () := preCheckDirs_synced hsync b
   have hpm : preCheckModified (checkedOut a obsA).wd (changes a b) = .ok () := preCheckModified_synced hsync b
-  -- facts about the files of the clean checkout
   have hfA0 : ∀ p, a.get p = none → (checkoutFiles a obsA).get p = none := by
     intro p h; rw [checkoutFiles_get a obsA hoa, h]; rfl
   have hfA1 : ∀ p x, a.get p = some x → ∃ f, (checkoutFiles a obsA).get p = some f ∧ f.entry = x := by
     intro p x h
     obtain ⟨o, ho⟩ := Option.isSome_iff_exists.mp ((List.all_eq_true.mp hoa) p (FMap.mem_keys_of_get h))
     exact ⟨⟨x.kind, x.cid, o.1, o.2⟩, by rw [checkoutFiles_get a obsA hoa, h, ho]; rfl, rfl⟩
-  have hTout : ∀ p, p ∉ changedPathOrder a b →
-      (checkedOut a obsA).wd.get p = targetWd a b (checkoutFiles a obsA) obsB p ∧
-      (checkedOut a obsA).index.get p = (targetWd a b (checkoutFiles a obsA) obsB p).map WFile.ientry := by
+  have hoff : ∀ p, p ∉ changedPathOrder a b → a.get p = none ∧ b.get p = none := by
     intro p hp
     have hpK : p ∉ a.keys ++ b.keys := fun e => hp ((mem_changedPathOrder a b p).mpr e)
-    have han : a.get p = none := by
-      cases h : a.get p with
+    constructor
+    · cases h : a.get p with
       | none => rfl
       | some x => exact absurd (List.mem_append_left _ (FMap.mem_keys_of_get h)) hpK
-    have hbn : b.get p = none := by
-      cases h : b.get p with
+    · cases h : b.get p with
       | none => rfl
       | some x => exact absurd (List.mem_append_right _ (FMap.mem_keys_of_get h)) hpK
-    have ht : targetWd a b (checkoutFiles a obsA) obsB p = none := by simp [targetWd, hbn]
-    rw [ht]
-    exact ⟨hfA0 p han, by rw [checkedOut_index_get, hfA0 p han]⟩
-  obtain ⟨s', happ, hall⟩ := applyChanges_sorted (a := a) (b := b) (fA := checkoutFiles a obsA)
-    (obs := obsB) hwfb hndf
-    (fun p x h => (List.all_eq_true.mp hva) p (FMap.mem_keys_of_get h))
+  -- first phase: the deletions
+  obtain ⟨s1, happ1, hin1, hout1⟩ := applyDels (a := a) (b := b) (fA := checkoutFiles a obsA) (obs := obsB) hwfa
+    (fun p x h => (List.all_eq_true.mp hva) p (FMap.mem_keys_of_get h)) hfA0 hfA1
+    (changedPathOrder a b) (nodup_changedPathOrder a b)
+    ⟨(checkedOut a obsA).wd, (checkedOut a obsA).index⟩ (fun _ => Or.inr rfl)
+    (fun p _ => ⟨rfl, checkedOut_index_get a obsA p⟩)
+  -- second phase: the writes
+  obtain ⟨s2, happ2, hall⟩ := applyAdds (a := a) (b := b) (fA := checkoutFiles a obsA) (obs := obsB) hwfb
     (fun p y h => (List.all_eq_true.mp hvb) p (FMap.mem_keys_of_get h))
     (fun p y h => Option.isSome_iff_exists.mp ((List.all_eq_true.mp hob) p (FMap.mem_keys_of_get h)))
-    hfA0 hfA1 (changedPathOrder a b) (sorted_changedPathOrder a b)
-    (fun p hp => (mem_changedPathOrder a b p).mp hp)
-    ⟨(checkedOut a obsA).wd, (checkedOut a obsA).index⟩
-    (fun p _ => ⟨rfl, checkedOut_index_get a obsA p⟩) hTout
-  have hsync' : Synced ⟨b, s'.index, s'.wd⟩ := by
+    hfA0 hfA1 (changedPathOrder a b) (nodup_changedPathOrder a b) s1 hin1
+    (by
+      intro p hp
+      obtain ⟨han, hbn⟩ := hoff p hp
+      have ht : targetWd a b (checkoutFiles a obsA) obsB p = none := by simp [targetWd, hbn]
+      rw [(hout1 p hp).1, (hout1 p hp).2, ht]
+      exact ⟨hfA0 p han, by rw [checkedOut_index_get, hfA0 p han]⟩)
+  have hsync' : Synced ⟨b, s2.index, s2.wd⟩ := by
     refine ⟨fun p => by rw [(hall p).2, (hall p).1], ?_, ?_⟩
     · intro p
-      show b.get p = (s'.wd.get p).map WFile.entry
+      show b.get p = (s2.wd.get p).map WFile.entry
       rw [(hall p).1]
       unfold targetWd
       cases hb : b.get p with
@@ -525,7 +391,7 @@ theorem branch_switch_partial (a b : FMap Entry) (obsA obsB : Obs)
         · obtain ⟨o, ho⟩ := Option.isSome_iff_exists.mp ((List.all_eq_true.mp hob) p (FMap.mem_keys_of_get hb))
           simp [hay, ho, fileOf, WFile.entry]
     · intro p hp
-      show hasFileAncestor s'.wd p = false
+      show hasFileAncestor s2.wd p = false
       obtain ⟨f, hf⟩ := FMap.get_of_mem_keys hp
       have hbp : ∃ y, b.get p = some y := by
         have := (hall p).1
@@ -539,81 +405,49 @@ theorem branch_switch_partial (a b : FMap Entry) (obsA obsB : Obs)
       intro k hk
       rw [(hall k).1]
       simp [targetWd, hwfb.apply hy hk]
-  refine ⟨⟨b, s'.index, s'.wd⟩, ?_, rfl, hsync'.wdEntry, hsync'.treeOf, hsync'.status, ?_⟩
-  · unfold switchTo
-    have hh : (checkedOut a obsA).head = a := rfl
-    have happ' : applyChanges obsB ⟨(checkedOut a obsA).wd, (checkedOut a obsA).index⟩ (changes a b) = (s', none) := happ
-    simp only [hcu, hh, hpd, hpm, happ']
-  · intro hl
-    rw [hsync'.status]
-    have : untrackedOf s'.wd s'.index = [] := by
-      simp only [untrackedOf, List.filter_eq_nil_iff]
-      intro p hp
-      have hlp := (List.all_eq_true.mp hl) p hp
-      obtain ⟨f, hf⟩ := FMap.get_of_mem_keys hp
-      have hv : lstatView s'.wd p = .file f := hsync'.view hf
-      have hi : s'.index.has p = true := by
-        have := hsync'.idx p
-        simp only at this
-        simp [FMap.has, this, hf]
-      simp only [hv, hi] at hlp
-      simp only [untrackedAt, hv]
-      cases hwf : walkedAsFile f <;> cases hal : s'.index.has (aliasOf p f) <;> simp_all
-    simp only [this]
+  refine ⟨⟨b, s2.index, s2.wd⟩, ?_, rfl, hsync'.wdEntry, hsync'.treeOf, hsync'.status⟩
+  unfold switchTo
+  have hh : (checkedOut a obsA).head = a := rfl
+  have happ : applyChanges obsB ⟨(checkedOut a obsA).wd, (checkedOut a obsA).index⟩
+      (applyOrder cur (changes a b)) = (s2, none) := by
+    rw [applyOrder_cur, applyChanges_append, happ1]
+    exact happ2
+  simp only [hcu, hh, hpd, hpm, happ]
 
-/-- non-vacuity: one switch that adds, deletes, rewrites, re-modes, changes the type of paths and turns
-the file `x` into a directory -/
-example : ∃ w', switchTo
+/-- non-vacuity: one switch that adds, deletes, rewrites, re-modes, changes the type of paths, turns
+the file `x` into a directory and the directory `d` into a file -/
+example : ∃ w', switchTo cur
       (checkedOut [(pa, ⟨.regular, 1⟩), (pb, ⟨.regular, 2⟩), (pc, ⟨.regular, 3⟩), (pde, ⟨.regular, 4⟩), (pu, ⟨.symlink, 5⟩), ([120], ⟨.regular, 7⟩)]
         [(pa, (⟨5, 5, 1⟩, reg)), (pb, (⟨5, 5, 1⟩, reg)), (pc, (⟨5, 5, 1⟩, reg)), (pde, (⟨5, 5, 1⟩, reg)),
          (pu, (⟨5, 5, 1⟩, ⟨.missing, none⟩)), ([120], (⟨5, 5, 1⟩, reg))])
-      [(pa, ⟨.regular, 1⟩), (pb, ⟨.executable, 2⟩), (pc, ⟨.symlink, 3⟩), (pn, ⟨.regular, 6⟩), (pu, ⟨.regular, 5⟩), ([120, 47, 121], ⟨.regular, 8⟩)]
+      [(pa, ⟨.regular, 1⟩), (pb, ⟨.executable, 2⟩), (pc, ⟨.symlink, 3⟩), (pn, ⟨.regular, 6⟩), (pu, ⟨.regular, 5⟩), ([120, 47, 121], ⟨.regular, 8⟩), (pd, ⟨.regular, 9⟩)]
       [(pa, (⟨9, 9, 1⟩, reg)), (pb, (⟨9, 9, 1⟩, reg)), (pc, (⟨9, 9, 1⟩, ⟨.missing, none⟩)), (pn, (⟨9, 9, 1⟩, reg)),
-       (pu, (⟨9, 9, 1⟩, reg)), ([120, 47, 121], (⟨9, 9, 1⟩, reg))] = ⟨w', none⟩ ∧
-      w'.head = [(pa, ⟨.regular, 1⟩), (pb, ⟨.executable, 2⟩), (pc, ⟨.symlink, 3⟩), (pn, ⟨.regular, 6⟩), (pu, ⟨.regular, 5⟩), ([120, 47, 121], ⟨.regular, 8⟩)] ∧
-      status w' = .ok ⟨[], [], [], [], []⟩ := by
-  obtain ⟨w', h1, h2, _, _, _, h6⟩ := branch_switch_partial
+       (pu, (⟨9, 9, 1⟩, reg)), ([120, 47, 121], (⟨9, 9, 1⟩, reg)), (pd, (⟨9, 9, 1⟩, reg))] = ⟨w', none⟩ ∧
+      status cur w' = .ok ⟨[], [], [], [], []⟩ := by
+  obtain ⟨w', h1, _, _, _, h5⟩ := branch_switch
     [(pa, ⟨.regular, 1⟩), (pb, ⟨.regular, 2⟩), (pc, ⟨.regular, 3⟩), (pde, ⟨.regular, 4⟩), (pu, ⟨.symlink, 5⟩), ([120], ⟨.regular, 7⟩)]
-    [(pa, ⟨.regular, 1⟩), (pb, ⟨.executable, 2⟩), (pc, ⟨.symlink, 3⟩), (pn, ⟨.regular, 6⟩), (pu, ⟨.regular, 5⟩), ([120, 47, 121], ⟨.regular, 8⟩)]
+    [(pa, ⟨.regular, 1⟩), (pb, ⟨.executable, 2⟩), (pc, ⟨.symlink, 3⟩), (pn, ⟨.regular, 6⟩), (pu, ⟨.regular, 5⟩), ([120, 47, 121], ⟨.regular, 8⟩), (pd, ⟨.regular, 9⟩)]
     [(pa, (⟨5, 5, 1⟩, reg)), (pb, (⟨5, 5, 1⟩, reg)), (pc, (⟨5, 5, 1⟩, reg)), (pde, (⟨5, 5, 1⟩, reg)),
      (pu, (⟨5, 5, 1⟩, ⟨.missing, none⟩)), ([120], (⟨5, 5, 1⟩, reg))]
     [(pa, (⟨9, 9, 1⟩, reg)), (pb, (⟨9, 9, 1⟩, reg)), (pc, (⟨9, 9, 1⟩, ⟨.missing, none⟩)), (pn, (⟨9, 9, 1⟩, reg)),
-     (pu, (⟨9, 9, 1⟩, reg)), ([120, 47, 121], (⟨9, 9, 1⟩, reg))]
-    (by decide) (by decide) (by decide) (by decide) (by decide) (by decide) (by decide)
-  refine ⟨w', h1, h2, h6 ?_⟩
-  have hw : w' = (switchTo
-      (checkedOut [(pa, ⟨.regular, 1⟩), (pb, ⟨.regular, 2⟩), (pc, ⟨.regular, 3⟩), (pde, ⟨.regular, 4⟩), (pu, ⟨.symlink, 5⟩), ([120], ⟨.regular, 7⟩)]
-        [(pa, (⟨5, 5, 1⟩, reg)), (pb, (⟨5, 5, 1⟩, reg)), (pc, (⟨5, 5, 1⟩, reg)), (pde, (⟨5, 5, 1⟩, reg)),
-         (pu, (⟨5, 5, 1⟩, ⟨.missing, none⟩)), ([120], (⟨5, 5, 1⟩, reg))])
-      [(pa, ⟨.regular, 1⟩), (pb, ⟨.executable, 2⟩), (pc, ⟨.symlink, 3⟩), (pn, ⟨.regular, 6⟩), (pu, ⟨.regular, 5⟩), ([120, 47, 121], ⟨.regular, 8⟩)]
-      [(pa, (⟨9, 9, 1⟩, reg)), (pb, (⟨9, 9, 1⟩, reg)), (pc, (⟨9, 9, 1⟩, ⟨.missing, none⟩)), (pn, (⟨9, 9, 1⟩, reg)),
-       (pu, (⟨9, 9, 1⟩, reg)), ([120, 47, 121], (⟨9, 9, 1⟩, reg))]).world := by rw [h1]
-  rw [hw]
-  decide
-
-/-- File → directory, concretely: `x` (file, executable, or link) in `a`, `x/y` and `x/z/w` in `b`. -/
-theorem branch_switch_file_to_dir_instances :
-    ∀ k ∈ [Kind.regular, Kind.executable, Kind.symlink],
-      let r := switchTo (checkedOut [([120], ⟨k, 1⟩), (pa, ⟨.regular, 2⟩)]
-          [([120], (⟨5, 5, 1⟩, ⟨.missing, none⟩)), (pa, (⟨5, 5, 1⟩, reg))])
-        [([120, 47, 121], ⟨.regular, 1⟩), ([120, 47, 122, 47, 119], ⟨.symlink, 3⟩), (pa, ⟨.regular, 2⟩)]
-        [([120, 47, 121], (⟨9, 9, 1⟩, reg)), ([120, 47, 122, 47, 119], (⟨9, 9, 1⟩, ⟨.missing, none⟩))]
-      r.err = none ∧ status r.world = .ok ⟨[], [], [], [], []⟩ ∧
-      wdEntry r.world.wd [120, 47, 121] = some ⟨.regular, 1⟩ ∧ wdEntry r.world.wd [120] = none ∧
-      (treeOf r.world.index).get [120] = none ∧ (treeOf r.world.index).get [120, 47, 122, 47, 119] = some ⟨.symlink, 3⟩ := by
-  decide
-
-/-- FINDING: directory → file.  `a` has `x/y`, `b` has the file `x`: `tree_changes` yields "add x"
-before "delete x/y", so `_transition_to_file` meets a non-empty directory and raises
-`IsADirectoryError`; HEAD, index and directory stay at `a`. -/
-theorem branch_switch_dir_to_file_counterexample : ¬ BranchSwitchStatement := by
-  intro h
-  obtain ⟨w', hw, _⟩ := h [([120, 47, 121], ⟨.regular, 1⟩)] [([120], ⟨.regular, 1⟩)]
-    [([120, 47, 121], (⟨5, 5, 1⟩, reg))] [([120], (⟨9, 9, 1⟩, reg))]
+     (pu, (⟨9, 9, 1⟩, reg)), ([120, 47, 121], (⟨9, 9, 1⟩, reg)), (pd, (⟨9, 9, 1⟩, reg))]
     (by decide) (by decide) (by decide) (by decide) (by decide) (by decide)
-  have : (switchTo (checkedOut [([120, 47, 121], ⟨.regular, 1⟩)] [([120, 47, 121], (⟨5, 5, 1⟩, reg))])
-      [([120], ⟨.regular, 1⟩)] [([120], (⟨9, 9, 1⟩, reg))]).err = some .isADirectory := by decide
-  rw [hw] at this
-  cases this
+  exact ⟨w', h1, h5⟩
+
+/-- REGRESSION (fixed): directory → file.  `a` has `x/y`, `b` has the file `x`: the old code wrote `x`
+before it deleted `x/y` and failed with `IsADirectoryError`; the code now switches. -/
+theorem legacy_dir_to_file_witness :
+    (switchTo legacy (checkedOut [([120, 47, 121], ⟨.regular, 1⟩)] [([120, 47, 121], (⟨5, 5, 1⟩, reg))])
+      [([120], ⟨.regular, 1⟩)] [([120], (⟨9, 9, 1⟩, reg))]).err = some .isADirectory ∧
+    (switchTo cur (checkedOut [([120, 47, 121], ⟨.regular, 1⟩)] [([120, 47, 121], (⟨5, 5, 1⟩, reg))])
+      [([120], ⟨.regular, 1⟩)] [([120], (⟨9, 9, 1⟩, reg))]).err = none ∧
+    wdEntry (switchTo cur (checkedOut [([120, 47, 121], ⟨.regular, 1⟩)] [([120, 47, 121], (⟨5, 5, 1⟩, reg))])
+      [([120], ⟨.regular, 1⟩)] [([120], (⟨9, 9, 1⟩, reg))]).world.wd [120] = some ⟨.regular, 1⟩ := by decide
+
+/-- REGRESSION: file → directory worked in the old order too and still works. -/
+theorem file_to_dir_both_orders :
+    ∀ fl ∈ [legacy, cur],
+      (switchTo fl (checkedOut [([120], ⟨.symlink, 1⟩)] [([120], (⟨5, 5, 1⟩, ⟨.missing, none⟩))])
+        [([120, 47, 121], ⟨.regular, 1⟩)] [([120, 47, 121], (⟨9, 9, 1⟩, reg))]).err = none := by decide
 
 end Dulwich.Props.C18
